@@ -3,7 +3,11 @@ From Coq Require Import NArith ZArith List Bool Permutation.
 From Blue Require Import Cursor.Iface Cursor.Ref Cursor.Lazy Cursor.Bounds Cursor.Pruning Cursor.Concat
   Cursor.Merging Cursor.Spec Cursor.Compose Cursor.Proofs_Order Cursor.Proofs_Ref Cursor.Proofs_Lazy
   Cursor.Proofs_Bounds Cursor.Proofs_Concat Cursor.Proofs_Pruning Cursor.Proofs_Heap
-  Cursor.Proofs_Merging Cursor.Proofs_Spec Cursor.Proofs_Compose.
+  Cursor.Proofs_Merging Cursor.Proofs_Spec Cursor.Proofs_Compose
+  Cursor.Fallible Cursor.FBounds Cursor.FPruning Cursor.FConcat Cursor.FMerging Cursor.FLazy Cursor.FCompose
+  Cursor.Proofs_Fallible Cursor.Proofs_FBounds Cursor.Proofs_FPruning Cursor.Proofs_FConcat Cursor.Proofs_FMerging
+  Cursor.Proofs_FLazy Cursor.Proofs_Recover Cursor.Proofs_ConcatRec Cursor.Proofs_FCompose Cursor.Proofs_FTree
+  Cursor.Nestings Cursor.Proofs_Nestings.
 Import ListNotations.
 Local Open Scope Z_scope.
 From Blue Require Import Cursor.Props_C11.
@@ -17,3 +21,23 @@ Check C11_compose : forall e prog, wf e -> run_model e prog = run_spec e prog.
 Check C11_refines_is_trace_equality : forall S (c : cursor S) s l i, refines c s l i <-> (-1 <= i <= len l /\ forall prog, run c prog s = run (ref l) prog i).
 Check C11_specs_are_the_definitions : (forall ls, distinct (concat ls) -> sorted (merge_spec ls) /\ Permutation (concat ls) (merge_spec ls)) /\ (forall l, sorted l -> distinct l) /\ (forall t l e, In e (prune_spec t l) <-> In e l /\ (ets e <= t)%N /\ ev e <> None /\ forall e', In e' l -> ek e' = ek e -> (ets e' <= t)%N -> (ets e' <= ets e)%N) /\ (forall lo hi l e, In e (bounds_spec lo hi l) <-> In e l /\ in_bounds lo hi e = true).
 Check C11_heap_fuel_sufficient : forall A (less : A -> A -> bool) n1 n2 l j, (length l <= n1 + j)%nat -> (length l <= n2 + j)%nat -> percolate_down less n1 l j = percolate_down less n2 l j.
+Check C11_errors_leaf : forall S (c : cursor S) junk, twin (failing c junk) c lf_st (fun x => pending (lf_sched x)).
+Check C11_errors_twin_merging : forall S Sq (fc : fcursor S) (cq : cursor Sq) q m, twin fc cq q m -> twin (fmerging fc) (merging cq) (qm q) (mm m).
+Check C11_errors_twin_concat : forall S Sq (fc : fcursor S) (cq : cursor Sq) q m, twin fc cq q m -> twin (fconcat fc) (concat_cursor cq) (qk q) (mk_ m).
+Check C11_errors_twin_bounds : forall S Sq (fc : fcursor S) (cq : cursor Sq) q m, twin fc cq q m -> forall fuel lo hi, twin (fbounds fc fuel lo hi) (bounds cq fuel lo hi) (qb q) (mb m).
+Check C11_errors_twin_pruning : forall S Sq (fc : fcursor S) (cq : cursor Sq) q m, twin fc cq q m -> forall fuel t, twin (fpruning fc fuel t) (pruning cq fuel t) (qp q) (mp m).
+Check C11_errors_twin_lazy : forall S Sq (fc : fcursor S) (cq : cursor Sq) q m, twin fc cq q m -> (forall s, m s = 0%nat) -> forall mk, twin (flazy fc mk) (lazy cq (q mk)) (ql q) ml.
+Check C11_recover_merging : forall S (c : cursor S) L tabs st, sorted L -> Permutation (concat tabs) L -> Forall sorted tabs -> Forall2 (fun s li => krec c s li) (m_kids st) tabs -> krec (merging c) st L.
+Check C11_recover_concat : forall S (c : cursor S) ls st, sorted (concat ls) -> k_fail st = None -> (k_pos st < length ls)%nat -> Forall2 (fun s li => krec c s li) (k_kids st) ls -> krec (concat_cursor c) st (concat_spec ls).
+Check C11_recover_bounds : forall S (c : cursor S) fuel lo hi l cur pos, sorted l -> Z.of_nat fuel >= len l + 2 -> krec c cur l -> krec (bounds c fuel lo hi) (mkB cur pos None) (bounds_spec lo hi l).
+Check C11_recover_pruning : forall S (c : cursor S) fuel t l cur sk, sorted l -> Z.of_nat fuel >= len l + 2 -> krec c cur l -> krec (pruning c fuel t) (mkP cur sk None) (prune_spec t l).
+Check C11_recover_lazy : forall S (c : cursor S) mk l i0 p, refines c mk l i0 -> (forall cur, p = LInst cur -> krec c cur l) -> krec (lazy c mk) p (lazy_spec l).
+Check C11_concat_children_only_need_recover : forall S (c : cursor S) ls kids, sorted (concat ls) -> ls <> [] -> Forall2 (fun s li => krec c s li) kids ls -> refines (concat_cursor c) (k_new c kids) (concat_spec ls) (-1).
+Check C11_errors_reported : forall e u prog, fubuild (fdepth e) (fsize e + 2) e = Some u -> (mu (fafter (fucur (fdepth e)) prog u) + count_err (frun (fucur (fdepth e)) prog u) = mu u)%nat.
+Check C11_errors_before_first : forall e u prog, wf (erase e) -> fubuild (fdepth e) (fsize e + 2) e = Some u -> fclean (fucur (fdepth e)) (spec_of (erase e)) prog u (-1).
+Check C11_after_error_outside_known : forall e u prog, wf (erase e) -> fubuild (fdepth e) (fsize e + 2) e = Some u -> fmatchh (fucur (fdepth e)) healthy (spec_of (erase e)) prog u (Some (-1)).
+Check C11_next_after_error_refuted : wf (erase exf_expr) /\ map (fun o => match o with FKV kv => kv | _ => None end) (tl (frun_model exf_expr exf_prog)) <> fnoop_ref (spec_of (erase exf_expr)) exf_prog (tl (frun_model exf_expr exf_prog)) (-1).
+Check C11_compaction_input : forall tabs prog, Forall sorted tabs -> distinct (concat tabs) -> run_model (compaction_input tabs) prog = run (ref (merge_spec tabs)) prog ref_new.
+Check C11_compaction_walk_reads_sorted_union : forall tabs n, Forall sorted tabs -> distinct (concat tabs) -> map fst (run_model (compaction_input tabs) (compaction_walk n)) = None :: map (fun k => ent (merge_spec tabs) (Z.min (Z.of_nat k - 1) (len (merge_spec tabs)))) (seq 0 (S n)).
+Check C11_gc_input : forall tabs prog, Forall sorted tabs -> distinct (concat tabs) -> run_model (compaction_input tabs) (gc_input_prefix ++ prog) = run (ref (merge_spec tabs)) (gc_input_prefix ++ prog) ref_new /\ skipn 2 (run (ref (merge_spec tabs)) (gc_input_prefix ++ prog) ref_new) = run (ref (merge_spec tabs)) prog (Z.min 0 (len (merge_spec tabs))).
+Check C11_compaction_input_errors : forall tabs u prog, Forall sorted (map fst tabs) -> distinct (concat (map fst tabs)) -> fubuild (fdepth (compaction_input_failing tabs)) (fsize (compaction_input_failing tabs) + 2) (compaction_input_failing tabs) = Some u -> fclean (fucur (fdepth (compaction_input_failing tabs))) (merge_spec (map fst tabs)) prog u (-1) /\ (mu (fafter (fucur (fdepth (compaction_input_failing tabs))) prog u) + count_err (frun (fucur (fdepth (compaction_input_failing tabs))) prog u) = mu u)%nat.
